@@ -305,7 +305,7 @@ def run(prog, rep, tier, repo):
 
     # ------------------------------------------------------------------ D10 agreement with the textbook table (identity testing of closed forms)
     from ..formula import TABLE, compare
-    eng2 = ElemEngine(prog, ints=True)
+    eng2 = ElemEngine(prog, ints=True, guarded=True)
     for d, spec in sorted(TABLE.items()):
         path = DS + d
         adt = pdb.adts.get(path)
